@@ -183,3 +183,57 @@ func VC_C19_overlapping_calls() {
 	verifAssert(!vDiverted(vC19F), "C19.overlap.reset-restores")
 	verifReached("C19.overlap")
 }
+
+// vC19Toggle performs one of the public logging switches.
+func vC19Toggle(name string) {
+	switch verifChoice(name, 5) {
+	case 0:
+	case 1:
+		OpenDebug()
+	case 2:
+		OpenTrace()
+	case 3:
+		OpenDebug()
+		CloseDebug()
+	case 4:
+		OpenTrace()
+		CloseTrace()
+	}
+}
+
+// VC_C19_api_toggles: the same comparison with the logging configuration produced by the
+// public switches (OpenDebug, OpenTrace, CloseDebug, CloseTrace) called before the mock
+// is applied and again between Apply and the calls.
+func VC_C19_api_toggles() {
+	vEnv()
+	vPristine(vC19F)
+	a := verifInt("a")
+	rest := []int{verifInt("rest0")}
+	off := vC19Run(logger.WarningLevel, logger.InfoLevel, false, a, rest)
+	// run 2 under the switches
+	logger.ConsoleLevel, logger.LogLevel = logger.WarningLevel, logger.InfoLevel
+	vC19Toggle("toggleBefore")
+	vC19Seen = vObs{}
+	b := Create()
+	b.Func(vC19F).Apply(vC19Cb)
+	vC19Toggle("toggleBetween")
+	on := vObs{}
+	f := vInvoke(vC19F, "C19.api").(func(int, ...int) int)
+	func() {
+		defer func() {
+			if r := recover(); r != nil {
+				on.panicked = true
+			}
+		}()
+		on.res = f(a, rest...)
+	}()
+	on.calls, on.a, on.nrest, on.rest0 = vC19Seen.calls, vC19Seen.a, vC19Seen.nrest, vC19Seen.rest0
+	b.Reset()
+	on.diverted = vDiverted(vC19F)
+	verifAssert(off.calls == on.calls, "C19.api.same-call-count")
+	verifAssert(off.a == on.a && off.nrest == on.nrest && off.rest0 == on.rest0, "C19.api.same-arguments-seen")
+	verifAssert(off.panicked == on.panicked, "C19.api.same-panics")
+	verifAssert(off.res == on.res, "C19.api.same-results")
+	verifAssert(!off.diverted && !on.diverted, "C19.api.reset-restores")
+	verifReached("C19.api")
+}
